@@ -3492,7 +3492,7 @@ class DecVar(Vars):
         var_name = '' if not self.name else self.name + ': '
         string = var_name
         expr = 'event-wise ' if len(self.event_adapt) > 1 else ''
-        expr += 'static ' if self.fixed else 'affinely adaptive '
+        expr += 'static ' if self.is_fixed() else 'affinely adaptive '
 
         if self.shape == ():
             string += 'an ' if expr[0] in 'ea' else 'a '
@@ -3510,12 +3510,29 @@ class DecVar(Vars):
         item_array = index_array(self.shape)
         indices = item_array[item]
 
-        return DecVarSub(self.dro_model, self, indices, fixed=self.fixed)
+        return DecVarSub(self.dro_model, self, indices,
+                         fixed=self.is_fixed(indices))
+
+    def is_fixed(self, indices=None):
+        """
+        False if any of the given entries (all entries by default) is
+        affinely adaptive, also when the adaptation was declared on a slice.
+        """
+
+        if not self.fixed:
+            return False
+        if self.rand_adapt is None:
+            return True
+        if indices is None:
+            return not self.rand_adapt.any()
+        rows = np.array(indices).flatten()
+        return not self.rand_adapt[rows].any()
 
     def to_affine(self):
 
         expr = super().to_affine()
-        return DecAffine(self.dro_model, expr, self.event_adapt, self.fixed)
+        return DecAffine(self.dro_model, expr,
+                         self.event_adapt, self.is_fixed())
 
     def adapt(self, to):
 
@@ -3667,7 +3684,7 @@ class DecVar(Vars):
     def E(self):
 
         return DecAffine(self.dro_model, self.to_affine(),
-                         fixed=self.fixed, ctype='E')
+                         fixed=self.is_fixed(), ctype='E')
 
     def __call__(self, *args):
 
